@@ -298,11 +298,21 @@ def run(ctx):
         cl = [ctx.true_conditions(c) for c in ctx.closures_of(f)]
         ok = len(cl) == 2 and all(p == [{"a2.skip=False"}] for p in cl)
         ctx.ob("C19.G.skipped-fields-and-variants-ignored", f.key, "|f| !f.skip, |v| !v.skip", ok, "filters keep an element under %s" % cl)
-    f = ctx.fn("darling_core::codegen::trait_impl::TraitImpl::<'a>::type_params_in_fields")
+    # every walk that feeds the bound computation goes over *fields that passed the field filter*, for
+    # struct bodies and for each variant of an enum body alike (walking whole variants would count
+    # their skipped fields), with the BoundImpl purpose — wherever the walk is written
+    f = ctx.fn("darling_core::codegen::trait_impl::TraitImpl::<'a>::type_params_matching")
     if f:
-        c = ctx.find_calls(f, r"collect_type_params_cloned$")
-        ok = len(c) == 1 and "Iterator>::filter(" in ctx.expr(f, c[0][1]["args"][0]).replace("core::iter::traits::iterator::Iterator::filter", "Iterator>::filter") and "BoundImpl" in ctx.expr(f, c[0][1]["args"][1])
-        ctx.ob("C19.G.bound-purpose", f.key, "fields.iter().filter(..).collect_type_params_cloned(&BoundImpl.into(), declared)", ok, "%s" % [[ctx.expr(f, a)[:100] for a in t["args"]] for _, t in c])
+        walks = ctx.find_calls_deep(f, r"collect_type_params(_cloned)?$", helpers=2)
+        ctx.ob("C19.G.bound-purpose", f.key, "walks found", len(walks) >= 1, "%d collect_type_params calls" % len(walks))
+        for blk, t, owner in walks:
+            ci = mir.callee_info(t)
+            sty = ci.get("self_ty") or ci.get("fn_with_args") or ""
+            ok = "core::iter::adapters::filter::Filter<" in sty and "darling_core::codegen::field::Field<" in sty and "codegen::variant::Variant<" not in sty
+            ctx.ob("C19.G.bounds-walk-filtered-fields", owner.key, "collect over %s" % sty[:90], ok,
+                   "the bound computation must iterate filtered fields (Filter<Iter<Field>, _>); it iterates %s" % sty[:200])
+            purpose = ctx.expr(owner, t["args"][1])
+            ctx.ob("C19.G.bound-purpose", owner.key, "purpose of the walk", "BoundImpl" in purpose, purpose[:120])
     f = ctx.fn("darling_core::codegen::outer_from_impl::OuterFromImpl::wrap")
     if f:
         cb = ctx.find_calls(f, r"compute_impl_bounds$")
